@@ -20,6 +20,8 @@ import (
 	"path/filepath"
 	"sort"
 	"strings"
+	"sync/atomic"
+	"time"
 
 	"github.com/piotrnar/gocoin/lib/btc"
 	"github.com/piotrnar/gocoin/lib/utxo"
@@ -102,6 +104,19 @@ func (w *world) undoBlock(b int) *btc.Block {
 	return bl
 }
 
+// countTarget counts the savers that began / returned (hook stream).
+type countTarget struct{ begun, returned int64 }
+
+func (c *countTarget) gate(name string) {}
+func (c *countTarget) sink(seq uint64, name string, kv []interface{}) {
+	switch name {
+	case "save_begin":
+		atomic.AddInt64(&c.begun, 1)
+	case "save_returned":
+		atomic.AddInt64(&c.returned, 1)
+	}
+}
+
 // buildBase creates dir with the snapshot of block initH on disk (UTXO.db) and undo files for 1..initH.
 // A wrong snapshot after these sequential commits and Close is itself an observation about the code under test
 // (returned as problem), not a machinery failure.
@@ -113,12 +128,20 @@ func (w *world) buildBase(dir string, initH int) (problem string, err error) {
 	old := utxo.UTXO_WRITING_TIME_TARGET
 	utxo.UTXO_WRITING_TIME_TARGET = 0
 	defer func() { utxo.UTXO_WRITING_TIME_TARGET = old }()
+	ct := &countTarget{}
+	setRun(ct)
 	db := utxo.NewUnspentDb(&utxo.NewUnspentOpts{Dir: dir + string(os.PathSeparator)})
 	for b := 0; b <= initH; b++ {
 		h := w.blockHash(b)
 		db.CommitBlockTxs(w.changes(b), h[:])
 	}
 	db.Close()
+	// save() hits its last hook (deferred) after Close() has returned: wait for it, so that the goroutine cannot
+	// show up in the first gated run as "a goroutine the model does not know"
+	if !waitFor(func() bool { return atomic.LoadInt64(&ct.begun) == atomic.LoadInt64(&ct.returned) }, 300*time.Second) {
+		return "", fmt.Errorf("the save() goroutine of the base build never returned")
+	}
+	setRun(nil)
 	s, err := parseSnap(filepath.Join(dir, "UTXO.db"))
 	if err != nil {
 		return fmt.Sprintf("after connecting blocks 0..%d and Close there is no UTXO.db", initH), nil
